@@ -207,9 +207,16 @@ def run_shard(rec, tier, seed, shard, nshards):
                     order.insert(int(rng.integers(0, len(order) + 1)), int(rng.integers(n_chunks)))
                 rec.case(("asm", n, n_chunks, tuple(int(x) for x in order)), nontrivial=n >= 2)
                 try:
-                    mats = [DC.ChunkedDistanceMatrix.load(files[int(c)]) for c in order]
+                    CDM = DC.ChunkedDistanceMatrix
+                    if o % 2 == 1:
+                        # a user's subclass (carries a label, say) loads and combines its chunks like the base class
+                        CDM = type("LabelledMatrix", (DC.ChunkedDistanceMatrix,), {"label": "run-%d" % t})
+                        rec.count("assemblies_through_a_user_defined_subclass")
+                    mats = [CDM.load(files[int(c)]) for c in order]
+                    if o % 4 == 3 and len(mats) >= 2:
+                        mats[0] = DC.ChunkedDistanceMatrix.load(files[int(order[0])])  # one chunk still of the library's own class
                     snap = [(m_.current_index, kit.raw_bytes(m_.row_indices[: m_.current_index]), kit.raw_bytes(m_.col_indices[: m_.current_index]), kit.raw_bytes(m_.values[: m_.current_index])) for m_ in mats]
-                    comb = DC.ChunkedDistanceMatrix.concat(mats)
+                    comb = CDM.concat(mats)
                     dense = comb.to_dense()
                     if len(mats) > 2 and rng.random() < 0.5:
                         # "any order" includes any bracketing: a random binary tree of combine() calls over the same
